@@ -12,7 +12,6 @@ INVARIANT LikelihoodOfFullGrid
 INVARIANT ClipCoversBins
 INVARIANT CoverLemma
 INVARIANT Observed
-INVARIANT FamiliesInside
 INVARIANT WindowLemma
 INVARIANT FitsInv
 CONSTRAINT Emit
